@@ -6,9 +6,16 @@
    a history is a list of  Get txn now | Update d now | Refused now |
    VacTxn now | VacVer now  (look-up, successful reload/revert, refused reload,
    one pass of either vacuum), each with the clock reading it ran on.
-   monotone h = the clock readings of h never decrease. *)
+   monotone h = the clock readings of h never decrease.
+
+   Second part ("interleaved"): UpdatePoliciesData is not atomic.  A split
+   history is a list of  A <atomic action> | UpdBegin u d now | UpdCommit u now |
+   UpdFail u now  (update u entered its HAProxy call / its call succeeded and
+   setNextVersion ran / its call failed); any number of updates may be inside
+   their calls at once and anything may run meanwhile.  safter, sstep, lookups
+   are the HEAD semantics; *_v V the semantics of variant V. *)
 From Coq Require Import List ZArith Bool Lia Sorted.
-From Verif Require Import C11.Model C11.Proofs.
+From Verif Require Import C11.Model C11.Proofs C11.Split.
 Import ListNotations.
 Open Scope Z_scope.
 
@@ -119,32 +126,178 @@ Theorem C11_invariant : forall d0 h T,
 Proof. exact invariant_spelled_out. Qed.
 Print Assumptions C11_invariant.
 
+(* ================================================================== *)
+(* UpdatePoliciesData split at its HAProxy call: all interleavings       *)
+
+(* At HEAD a split history acts on the accessor exactly as the atomic history
+   [flat [] h]: every committed update is an [Update d] at its commit instant,
+   every other step of an update is a no-op; the look-ups hand out the same
+   objects.  (So every theorem above transfers to split histories; the main ones
+   are restated below in full.) *)
+Theorem C11_split_refines_atomic : forall d0 h,
+  base (safter (sinit d0) h) = after (init d0) (flat [] h) /\
+  lookups (sinit d0) h = outs (init d0) (flat [] h) /\
+  map time_of (flat [] h) = map stime_of h.
+Proof.
+  intros d0 h. split; [exact (base_safter h (sinit d0))|].
+  split; [exact (lookups_outs h (sinit d0))|apply time_flat].
+Qed.
+Print Assumptions C11_split_refines_atomic.
+
+(* the atomic actions are derived forms, and atomic histories embed *)
+Theorem C11_atomic_update_is_begin_commit : forall s u d t now,
+  base (safter s [UpdBegin u d t; UpdCommit u now]) = fst (step (base s) (Update d now)) /\
+  base (safter s [UpdBegin u d t; UpdFail u now]) = fst (step (base s) (Refused now)).
+Proof.
+  intros. split; [apply update_is_begin_commit|apply (refused_is_begin_fail s u d t now)].
+Qed.
+Print Assumptions C11_atomic_update_is_begin_commit.
+
+(* ---- C11_pinned over all interleavings ----
+   The statement, for the semantics of variant V.  pre and mid are arbitrary
+   split histories: look-ups of any transaction, vacuum passes, atomic updates,
+   and begin / commit / fail steps of any number of overlapping updates — in
+   particular txn may be first seen (t0) or looked up again (t) while updates are
+   inside their HAProxy calls, and those updates may then commit or fail. *)
+Definition pinned_interleaved_v (V : variant) : Prop :=
+  forall d0 pre txn t0 mid t,
+  smonotone (pre ++ A (Get txn t0) :: mid ++ [A (Get txn t)]) ->
+  lookup txn (pins (base (safter_v V (sinit d0) pre))) = None ->
+  t <= t0 + ttl ->
+  let s1 := safter_v V (sinit d0) pre in
+  let o1 := snd (get (base s1) txn t0) in
+  let o2 := snd (get (base (safter_v V (fst (sstep_v V s1 (A (Get txn t0)))) mid)) txn t) in
+  o2 = o1 /\
+  o1 = {| o_ver := cur (base s1); o_data := Some (committed_data d0 pre); o_fallback := false |}.
+
+Theorem C11_pinned_interleaved : pinned_interleaved_v head.
+Proof. exact pinned_interleaved. Qed.
+Print Assumptions C11_pinned_interleaved.
+
+(* C11_retention and C11_new_sees_new over all interleavings *)
+Theorem C11_retention_interleaved : forall d0 pre txn t0 mid a,
+  smonotone (pre ++ A (Get txn t0) :: mid ++ [a]) ->
+  lookup txn (pins (base (safter (sinit d0) pre))) = None ->
+  let s1 := safter (sinit d0) pre in
+  let s3 := safter (fst (sstep s1 (A (Get txn t0)))) mid in
+  retained (cur (base s1)) (base (fst (sstep s3 a))) = false ->
+  t0 + ttl < stime_of a.
+Proof. exact retention_interleaved. Qed.
+Print Assumptions C11_retention_interleaved.
+
+Theorem C11_new_sees_new_interleaved : forall d0 h txn t,
+  lookup txn (pins (base (safter (sinit d0) h))) = None ->
+  snd (get (base (safter (sinit d0) h)) txn t) =
+  {| o_ver := 1 + n_committed h; o_data := Some (committed_data d0 h); o_fallback := false |}.
+Proof. exact new_sees_new_interleaved. Qed.
+Print Assumptions C11_new_sees_new_interleaved.
+
+(* ---- C11_failed_update_invisible ----
+   An update that is never committed (its call failed, or is still in flight)
+   changes nothing any transaction can observe: for EVERY split history h and
+   update id u without a commit in h, the accessor state after h and everything
+   the look-ups of h hand out are those of the history with all steps of u
+   erased.  (h is arbitrary, so this holds after every prefix too.) *)
+Definition failed_update_invisible_v (V : variant) : Prop :=
+  forall d0 h u,
+  commits u h = false ->
+  base (safter_v V (sinit d0) h) = base (safter_v V (sinit d0) (erase u h)) /\
+  lookups_v V (sinit d0) h = lookups_v V (sinit d0) (erase u h).
+
+Theorem C11_failed_update_invisible : failed_update_invisible_v head.
+Proof. exact failed_update_invisible. Qed.
+Print Assumptions C11_failed_update_invisible.
+
+(* no look-up ever hands out an object that was not installed: what is served
+   is the initial object or the data of a COMMITTED update — never the data of
+   a failed or still in-flight one *)
+Theorem C11_served_data_was_committed : forall d0 h o d,
+  In o (lookups (sinit d0) h) -> o_data o = Some d -> d = d0 \/ In d (committed h).
+Proof. exact served_was_committed. Qed.
+Print Assumptions C11_served_data_was_committed.
+
+(* ---- the variant "publish before the call, roll back on error" ----
+   (seeded change C11-4).  Run one update at a time it is indistinguishable
+   from HEAD ... *)
+Theorem C11_published_first_same_when_sequential : forall s u d t now,
+  Inv0 (base s) ->
+  base (safter_v published_first s [UpdBegin u d t; UpdCommit u now])
+    = base (safter s [UpdBegin u d t; UpdCommit u now]) /\
+  base (safter_v published_first s [UpdBegin u d t; UpdFail u now])
+    = base (safter s [UpdBegin u d t; UpdFail u now]).
+Proof.
+  intros s u d t now I. split.
+  - rewrite variant_commit_same, update_is_begin_commit. reflexivity.
+  - rewrite (variant_fail_same s u d t now I), (refused_is_begin_fail s u d t now). reflexivity.
+Qed.
+Print Assumptions C11_published_first_same_when_sequential.
+
+(* ... but a transaction first seen inside the call of an update that then
+   fails was handed the never-committed object 11 and, with no time passing,
+   gets object 10 at its next look-up (fallback: its version has disappeared) *)
+Theorem C11_pinned_interleaved_refuted_when_published_before_call :
+  ~ pinned_interleaved_v published_first.
+Proof.
+  intros H.
+  specialize (H 10 [UpdBegin 1 11 5] 7 6 [UpdFail 1 7] 8).
+  cbn zeta in H. destruct H as [H _].
+  - unfold smonotone. vm_compute. repeat (constructor; try (intro X; discriminate X)).
+  - vm_compute. reflexivity.
+  - vm_compute. discriminate.
+  - vm_compute in H. discriminate H.
+Qed.
+Print Assumptions C11_pinned_interleaved_refuted_when_published_before_call.
+
+Theorem C11_failed_update_invisible_refuted_when_published_before_call :
+  ~ failed_update_invisible_v published_first.
+Proof.
+  intros H.
+  specialize (H 10 [UpdBegin 1 11 5; A (Get 7 6); UpdFail 1 7; A (Get 7 8)] 1 eq_refl).
+  destruct H as [_ H]. vm_compute in H. discriminate H.
+Qed.
+Print Assumptions C11_failed_update_invisible_refuted_when_published_before_call.
+
+(* what the variant does on that history and one more (committed) update:
+   transaction 7 is served 11, then 10 (fallback), then 12 — the version number
+   2 is re-used for other data; at HEAD it is served 10, 10, 10 *)
+Example C11_published_first_witness :
+  let h := [UpdBegin 1 11 5; A (Get 7 6); UpdFail 1 7; A (Get 7 8);
+            UpdBegin 2 12 9; UpdCommit 2 10; A (Get 7 11)] in
+  map o_data (lookups_v published_first (sinit 10) h) = [Some 11; Some 10; Some 12] /\
+  map o_fallback (lookups_v published_first (sinit 10) h) = [false; true; false] /\
+  map o_data (lookups (sinit 10) h) = [Some 10; Some 10; Some 10] /\
+  map o_data (lookups (sinit 10) (erase 1 h)) = [Some 10; Some 10; Some 10].
+Proof. vm_compute. repeat split. Qed.
+
 (* ---- the glue: routing/messages_handler.go in policy mode ----
    Req id seq / Resp id seq status are processRequest / processResponse of a
    transaction (id) of a sequence (seq); both look the accessor up under the
-   transaction id (Model.v, second part).  On the accessor a routing history
-   acts exactly as its projection (Req, Resp |-> Get id). *)
+   transaction id (Model.v, last part); Acc a is any split accessor action.  On
+   the accessor a routing history acts exactly as its projection
+   (Req, Resp |-> A (Get id)). *)
 Theorem C11_routing_refines_accessor : forall d0 h,
-  acc (rafter (rinit d0) h) = after (init d0) (map proj h).
+  acc (rafter (rinit d0) h) = safter (sinit d0) (map proj h).
 Proof. intros d0 h. exact (racc_after h (rinit d0)). Qed.
 Print Assumptions C11_routing_refines_accessor.
 
 (* The response of a transaction is dispatched with exactly the data that was
-   current when its request was seen (the data of the last successful update
-   before the request), whatever happens in between, for every sequence id on
-   either message, whenever the response comes within ttl of the request and
-   the clock is monotone; in particular the harness's marker observable (retry
-   action or not) is the one that data produces. *)
+   current when its request was seen (the data of the last COMMITTED update
+   before the request), whatever happens in between — including updates that
+   begin, commit or fail while the request or the response is handled inside
+   their HAProxy call —, for every sequence id on either message, whenever the
+   response comes within ttl of the request and the clock is monotone; in
+   particular the harness's marker observable (retry action or not) is the one
+   that data produces. *)
 Theorem C11_response_uses_request_version :
   forall d0 pre id seq t0 mid seq' status t,
-  monotone (map proj (pre ++ Req id seq t0 :: mid ++ [Resp id seq' status t])) ->
-  lookup id (pins (acc (rafter (rinit d0) pre))) = None ->
+  smonotone (map proj (pre ++ Req id seq t0 :: mid ++ [Resp id seq' status t])) ->
+  lookup id (pins (base (acc (rafter (rinit d0) pre)))) = None ->
   t <= t0 + ttl ->
   let s1 := rafter (rinit d0) pre in
   let s3 := rafter (fst (rstep s1 (Req id seq t0))) mid in
-  let D := last_data d0 (map proj pre) in
-  snd (get (acc s3) id t)
-    = {| o_ver := cur (acc s1); o_data := Some D; o_fallback := false |} /\
+  let D := committed_data d0 (map proj pre) in
+  snd (get (base (acc s3)) id t)
+    = {| o_ver := cur (base (acc s1)); o_data := Some D; o_fallback := false |} /\
   snd (rstep s3 (Resp id seq' status t))
     = snd (dispatch_resp (alive s3) id seq' status (Some D)).
 Proof. exact response_uses_request_version. Qed.
@@ -221,9 +374,9 @@ Qed.
    and a transaction that starts after the reload is processed with object 1. *)
 Example C11_routing_applies :
   let pre := [Req 1 1 0; Resp 1 1 (marker 0) 1] in
-  let mid := [Acc (Update 1 3)] in
-  monotone (map proj (pre ++ Req 2 1 2 :: mid ++ [Resp 2 1 (marker 0) 4])) /\
-  lookup 2 (pins (acc (rafter (rinit 0) pre))) = None /\
+  let mid := [Acc (A (Update 1 3))] in
+  smonotone (map proj (pre ++ Req 2 1 2 :: mid ++ [Resp 2 1 (marker 0) 4])) /\
+  lookup 2 (pins (base (acc (rafter (rinit 0) pre)))) = None /\
   map snd (rtrace (rinit 0) (pre ++ Req 2 1 2 :: mid ++
              [Resp 2 1 (marker 0) 4; Req 3 3 5; Resp 3 3 (marker 0) 6; Req 4 4 7; Resp 4 4 (marker 1) 8]))
   = [[0]; [0]; [0]; [0; 1]; [0; 1]; [0; 1]; [0; 1]; [0; 1]; [0; 1]] /\
@@ -232,7 +385,35 @@ Example C11_routing_applies :
   = [0; 1; 0; 0; 1; 0; 0; 0; 1].
 Proof.
   split.
-  { unfold monotone. vm_compute.
+  { unfold smonotone. vm_compute.
+    repeat (constructor; try (intro H; discriminate H)). }
+  vm_compute. repeat split.
+Qed.
+
+(* interleaved: update 1 (object 11) is inside its call when transaction 7 is
+   first seen; it commits; update 2 (object 12) begins, transaction 1 is first
+   seen inside ITS call (t0) and gets the committed object 11; update 3 begins
+   and commits inside the call of update 2, which then fails; a pass of the
+   version vacuum at t0 + ttl; transaction 1 still gets (version 2, object 11)
+   while new transactions get (version 3, object 13); object 12 is never served *)
+Definition ex_spre : list sact :=
+  [UpdBegin 1 11 0; A (Get 7 1); UpdCommit 1 2; UpdBegin 2 12 3].
+Definition ex_smid : list sact :=
+  [UpdBegin 3 13 (ex_t0 + 1); A (Get 8 (ex_t0 + 2)); UpdCommit 3 (ex_t0 + 3);
+   UpdFail 2 (ex_t0 + 4); A (Get 9 (ex_t0 + 5)); A (VacVer (ex_t0 + ttl))].
+
+Example C11_pinned_interleaved_applies :
+  smonotone (ex_spre ++ A (Get 1 ex_t0) :: ex_smid ++ [A (Get 1 (ex_t0 + ttl))]) /\
+  lookup 1 (pins (base (safter (sinit 10) ex_spre))) = None /\
+  committed_data 10 ex_spre = 11 /\
+  map (fun o => (o_ver o, o_data o))
+      (lookups (sinit 10) (ex_spre ++ A (Get 1 ex_t0) :: ex_smid ++ [A (Get 1 (ex_t0 + ttl))]))
+    = [(1, Some 10); (2, Some 11); (2, Some 11); (3, Some 13); (2, Some 11)] /\
+  commits 2 (ex_spre ++ A (Get 1 ex_t0) :: ex_smid ++ [A (Get 1 (ex_t0 + ttl))]) = false /\
+  length (erase 2 (ex_spre ++ A (Get 1 ex_t0) :: ex_smid ++ [A (Get 1 (ex_t0 + ttl))])) = 10%nat.
+Proof.
+  split.
+  { unfold smonotone. vm_compute.
     repeat (constructor; try (intro H; discriminate H)). }
   vm_compute. repeat split.
 Qed.
